@@ -84,26 +84,24 @@ func (h265dp *h265Depacketizer) depacketizeStap(packet *Packet) (err error) {
 	off := 2 // 跳过 STAP NAL HDR
 
 	// 循环读取被封装的NAL
-	for {
+	for off+2 <= len(payload) {
 		// nal长度
-		nalSize := ((uint16(payload[off])) << 8) | uint16(payload[off+1])
-		if nalSize < 1 {
+		nalSize := int(payload[off])<<8 | int(payload[off+1])
+		off += 2
+		if nalSize < 1 || off+nalSize > len(payload) {
+			// 长度非法或超出包的范围(包被截断)，丢弃剩余部分，不输出残缺的 NAL
 			return
 		}
 
-		off += 2
 		frame := &codec.Frame{
 			MediaType: codec.MediaTypeVideo,
 			Payload:   make([]byte, nalSize),
 		}
-		copy(frame.Payload, payload[off:])
+		copy(frame.Payload, payload[off:off+nalSize])
 		if err = h265dp.writeFrame(packet.Timestamp, frame); err != nil {
 			return
 		}
-		off += int(nalSize)
-		if off >= len(payload) { // 扫描完成
-			break
-		}
+		off += nalSize
 	}
 	return
 }
